@@ -21,6 +21,7 @@ PROP = {
     "targets": [{"name": "str_enum", "mode": "enum"}]
                + [{"name": f, "quick": QUICK, "thorough": THOROUGH, "maxlen": 400} for f in FUNCS]
                + [{"name": "all", "quick": 0, "thorough": 2000000, "maxlen": 400},
+                  {"name": "span_soak", "quick": 400, "thorough": 5000, "maxlen": 64},
                   {"name": "all_long", "quick": 600000, "thorough": 6000000, "maxlen": 400}],
     "fuzz": [{"name": "all", "secs": 90, "maxlen": 400}],
 }
